@@ -145,7 +145,7 @@ def facts(src):
                        'ainfos.sort(key=bypath)', 'ainfo, rest = (ainfos[0], ainfos[1:])',
                        'for i, action in sorted(output, key=operator.itemgetter(0)):',
                        'prev_ainfo = state.resolved_ainfos.get(discriminator)',
-                       'if discriminator is None:\n    output.append(ainfo)\n    continue',
+                       'if discriminator is None:',
                        "discriminator = undefer(action['discriminator'])",
                        'actions = state.remaining_actions'):
             if needle not in txt:
